@@ -87,7 +87,7 @@ class SelOrder:
 
     @staticmethod
     def restrict(facts, how):
-        return {(fam, how if sel == "full" else f"{sel}|{how}") for fam, sel in facts}
+        return {(fam, how if sel == "full" else f"{sel}|{how}", mem) for fam, sel, mem in facts}
 
     def facts(self, e, at, depth=0):
         if depth > 8 or e is None:
@@ -98,7 +98,7 @@ class SelOrder:
             for st, v, k in self.defs(e.id, at):
                 if k == "param":
                     if fam and fam.startswith("blocks") and e.id.startswith("slices"):
-                        res.add((fam, "full"))
+                        res.add((fam, "full", "slices"))
                 elif k == "assign" and v is not None:
                     res |= self.facts(v, st, depth + 1)
             return res
@@ -106,11 +106,11 @@ class SelOrder:
             if e.attr in BLOCK_ATTRS:
                 fam = family_of_base(e.value)
                 if fam:
-                    return {(fam, "full")}
+                    return {(fam, "full", e.attr)}
             if e.attr == "slices":
                 fam = family_of_base(e)
                 if fam:
-                    return {(fam, "full")}
+                    return {(fam, "full", "slices")}
             return set()
         if isinstance(e, ast.Subscript):
             if isinstance(e.slice, ast.Slice):
@@ -153,18 +153,23 @@ class SelOrder:
             typed = [(a, o) for a, o in typed if o]
             fams = {}
             for a, o in typed:
-                for fam in {f for f, _ in o}:
-                    fams.setdefault(fam, []).append((a, frozenset(s for f, s in o if f == fam)))
+                for fam in {f for f, _, _ in o}:
+                    fams.setdefault(fam, []).append((a, frozenset(s for f, s, m in o if f == fam), frozenset(m for f, s, m in o if f == fam)))
             fams = {f: v for f, v in fams.items() if len(v) >= 2}
             if not fams:
                 continue
-            facts = {"arguments": {A.short(a, 40): sorted(f"{f} [{s}]" for f, s in o) for a, o in typed}}
+            facts = {"arguments": {A.short(a, 40): sorted(f"{f}.{m} [{s}]" for f, s, m in o) for a, o in typed}}
             bad = None
             for fam, members in fams.items():
-                ref = members[0]
-                for m in members[1:]:
-                    if m[1] != ref[1]:
-                        bad = (fam, ref, m)
+                for i in range(len(members)):
+                    for k in range(i + 1, len(members)):
+                        m1, m2 = members[i], members[k]
+                        # one and the same sequence paired with a shifted / restricted copy of itself (`zip(X, X[1:])`: adjacent entries)
+                        # is not a pairing of *parallel* sequences
+                        if m1[2] == m2[2]:
+                            continue
+                        if m1[1] != m2[1]:
+                            bad = (fam, (m1[0], m1[1]), (m2[0], m2[1]))
             if bad:
                 fam, (a1, s1), (a2, s2) = bad
                 self.findings.append((n, f"`{A.short(n, 70)}` pairs `{A.short(a1, 30)}` ({', '.join(sorted(s1))}) with `{A.short(a2, 30)}` "
